@@ -140,6 +140,22 @@ func rulesC15(w *World, o *Out) {
 		o.Check("C15.R1", "SetBridgeTax|refuses negative or unparsable rates", okS, w.Pos(sbt.Pos()), "the save must be dominated by rate.Sign() >= 0 (and a successful parse)")
 	}
 
+	// the rate that is stored is the rate that was voted: no re-rendering on the way into the store
+	nRate := 0
+	for _, f := range w.ProdFuncs {
+		if isGeneratedFile(w, f) {
+			continue
+		}
+		for _, st := range storesToField(f, "BridgeTax", "Rate") {
+			nRate++
+			nm, base := loadedField(st.Val)
+			_, isConst := canon(st.Val).(*ssa.Const)
+			o.Check("C15.R1", w.FuncKey(TopFunc(f))+"|the bridge tax rate is stored exactly as proposed", (nm == "Rate" && base != nil) || isConst, w.Pos(st.Pos()),
+				"the tax is floor(amount × num/den) of the configured rate; a rate that is parsed and re-rendered (decimal expansion, rounding to a fixed precision) before it is stored is a different rational number for rates like 1/3")
+		}
+	}
+	o.Count("C15.R1 BridgeTax.Rate assignments", nRate, 1)
+
 	// ---- R3 ----
 	upd := w.MustFunc(o, skw, "Keeper", "UpdateBridgeTransferUsageWithLimit")
 	muts := w.StoreMuts(fl)
@@ -238,6 +254,45 @@ func rulesC16(w *World, o *Out) {
 	o.Rule("C16.R3", "MintCoins / BurnCoins in the token factory are dominated by a successful DeconstructDenom, and mint+send / send+burn use one amount and the address parameter as given")
 	o.Rule("C16.R4", "the privileged keeper functions and the authority-metadata writer are called only from the msg server, the create flow and genesis")
 	o.Rule("C16.R5", "a denomination is created only if bank metadata for it does not exist, and its name is GetTokenDenom(creator, sub)")
+	o.Rule("C16.R6", "who administers a denomination is read from the committed store record only: GetAuthorityMetadata returns the unmarshalled record (or the empty value), and the tokenfactory keeper keeps no in-memory state beside the store")
+	memStateRule(w, o, "C16.R6", "admin and supply decisions of the token factory", "x/tokenfactory")
+	if gam := w.MustFunc(o, "x/tokenfactory/keeper", "Keeper", "GetAuthorityMetadata"); gam != nil {
+		o.Analysed(w.FuncKey(gam))
+		for i, r := range Returns(gam) {
+			if len(r.Ret.Results) < 1 {
+				continue
+			}
+			v := canon(r.Ret.Results[0])
+			ok, why := false, "the returned metadata is "+v.String()
+			if u, isLoad := r.Ret.Results[0].(*ssa.UnOp); isLoad {
+				v = u
+			}
+			if u, isLoad := v.(*ssa.UnOp); isLoad {
+				if al, isAl := u.X.(*ssa.Alloc); isAl {
+					ok = true
+					for _, rf := range *al.Referrers() {
+						switch x := rf.(type) {
+						case *ssa.Store:
+							if x.Addr == ssa.Value(al) {
+								ok, why = false, "the record variable is assigned from "+x.Val.String()
+							}
+						case *ssa.FieldAddr:
+							for _, rf2 := range *x.Referrers() {
+								if st, isSt := rf2.(*ssa.Store); isSt && st.Addr == ssa.Value(x) {
+									ok, why = false, "a field of the record is assigned in the getter"
+								}
+							}
+						}
+					}
+				}
+			}
+			if c, isConst := v.(*ssa.Const); isConst && c.Value == nil {
+				ok = true
+			}
+			o.Check("C16.R6", "GetAuthorityMetadata|returns the stored record or the empty value"+ordSuffix(i), ok, w.Pos(r.Ret.Pos()),
+				"a denomination without a stored authority record has no admin; deriving an admin from anything else (e.g. the creator spelled in a factory-shaped name) lets a never-created denomination be administered, given metadata and minted. "+why)
+		}
+	}
 
 	type op struct {
 		handler string
@@ -459,6 +514,42 @@ func rulesC17(w *World, o *Out) {
 	o.Rule("C17.R1", "the jobs store is written by one function, reached only through AddNewJob under 'id does not exist'; the owner of a created job is the message creator")
 	o.Rule("C17.R2", "ScheduleNow passes the stored payload, or the caller's payload only on the modifiable edge; a caller payload on a fixed job returns an error before the chain executes anything")
 	o.Rule("C17.R3", "the evm ExecuteJob enqueues exactly one contract call on every success path, with the payload produced by injecting the requester's address zero-padded to 32 bytes, the address taken whole (no fixed-width truncation)")
+	o.Rule("C17.R4", "the requester whose address is injected is the message creator (not a signer); the scheduler keeps no in-memory copy of jobs beside the store")
+	memStateRule(w, o, "C17.R4", "which job definition and payload is executed", "x/scheduler")
+	if ej := w.MustFunc(o, sk, "msgServer", "ExecuteJob"); ej != nil {
+		o.Analysed(w.FuncKey(ej))
+		req := ej.Params[len(ej.Params)-1]
+		n := 0
+		for _, s2 := range CallsIn(ej) {
+			if s2.Callee.Name != "ExecuteJob" || !strings.Contains(s2.Callee.Pkg, "x/scheduler") {
+				continue
+			}
+			n++
+			args := s2.Args()
+			if len(args) < 2 {
+				continue
+			}
+			sender := args[len(args)-2]
+			aps, _ := fl.Influence(sender)
+			okC, bad := false, ""
+			for a := range aps {
+				if a.Root != ssa.Value(req) {
+					continue
+				}
+				if strings.Contains(a.Path, ".Metadata.Creator") {
+					okC = true
+				} else if a.Path != "" && !strings.HasSuffix(a.Path, ".Metadata") {
+					bad = a.String()
+				}
+			}
+			if fl.DependsOnCall(sender, func(c Callee) bool { return c.Name == "GetSigners" }) != nil {
+				bad = "GetSigners()"
+			}
+			o.Check("C17.R4", "ExecuteJob handler|the requester passed on is the message creator", okC && bad == "", w.Pos(s2.Instr.Pos()),
+				"the address appended to the payload (and recorded as sender of the call) must derive from Metadata.Creator alone; with delegated signing the first signer is the fee-grantee, not the account that requested the execution; also derived from "+bad)
+		}
+		o.Count("C17.R4 keeper ExecuteJob calls in the handler", n, 1)
+	}
 
 	muts := w.StoreMuts(fl)
 	nJ := 0
@@ -697,7 +788,16 @@ func successExcept(f *ssa.Function, s Site) map[ssa.Instruction]bool {
 	return out
 }
 
+func ordSuffix(i int) string {
+	if i == 0 {
+		return ""
+	}
+	return "#" + itoa(i+1)
+}
+
 func rulesC18(w *World, o *Out) {
+	o.Rule("C18.R4", "licence bookkeeping is taken from committed store state only (no in-memory state beside the store in x/paloma)")
+	memStateRule(w, o, "C18.R4", "licence existence, amounts and activation", "x/paloma/keeper")
 	fl := NewFlow(w)
 	const pk = "x/paloma/keeper"
 	o.Rule("C18.R1", "the paloma module account is moved by exactly two sites: the lock at licence creation, whose coins are the very coin recorded as the licence amount, and the release at activation, whose coins (and the vesting amount) are the loaded licence's amount; vesting starts at the block time and ends VestingMonths later")
@@ -842,6 +942,22 @@ func rulesC18(w *World, o *Out) {
 				}
 			}
 			o.Check("C18.R2", "CreateLightNodeClientAccount|deletes the activated address's licence", okK, w.Pos(d.Instr.Pos()), "the deleted key must be the addr parameter")
+			// ... and the licence that is paid out was loaded under that very key: no re-spelling of the address
+			// between lookup and delete (a licence found under ToUpper(addr) is paid out but never deleted)
+			tr := ""
+			for _, bs := range CallsIn(ca) {
+				if !isBankKeeperRecv(bs.Callee) || bs.Callee.Name != "SendCoinsFromModuleToAccount" {
+					continue
+				}
+				args := bs.Args()
+				if c := fl.DependsOnCall(args[len(args)-1], isLossyStringFunc); c != nil {
+					if cal, okc := CalleeOf(c.Common()); okc {
+						tr = cal.String()
+					}
+				}
+			}
+			o.Check("C18.R2", "CreateLightNodeClientAccount|the licence paid out is looked up under the key that is deleted", tr == "", w.Pos(d.Instr.Pos()),
+				"the released amount comes from a licence found through "+tr+" applied to the address, while the delete uses the address as given: the licence survives its own activation")
 		}
 	}
 	if cl != nil {
